@@ -495,7 +495,7 @@ func (p *parser) parseNodeTest(n node, axeTyp string, matchType NodeType) (opnd 
 			prefix := p.r.prefix
 			name := p.r.name
 			p.next()
-			if p.r.name == "*" {
+			if name == "*" {
 				name = ""
 			}
 			opnd = newAxisNode(axeTyp, matchType, name, prefix, "", n, func(a *axisNode) {
